@@ -362,8 +362,14 @@ pub fn run(tier: Tier) -> CheckResult {
     let d1 = gen::enumerate_full(&[RTy::prim("String"), RTy::named("Item")], 1);
     tys.extend(d1.into_iter().filter(|t| t.depth() == 1));
     if tier == Tier::Thorough {
-        tys.extend(gen::enumerate_full(&[RTy::prim("i32"), RTy::named("Item")], 2).into_iter().filter(|t| t.depth() == 2).step_by(7));
+        tys.extend(gen::enumerate_full(&[RTy::prim("i32"), RTy::named("Item")], 2).into_iter().filter(|t| t.depth() == 2));
+    } else {
+        tys.extend(gen::enumerate_full(&[RTy::named("Item")], 2).into_iter().filter(|t| t.depth() == 2));
     }
+    // how `Option` directly under a sequence is *rendered* is C05's open finding (`T | null[]`); what
+    // C12 decides is which Rust type the payload is taken to have, so those types stay out here
+    let c05_owned = TyPred::DirectT("Seq".into(), "Option".into());
+    tys.retain(|t| !c05_owned.eval(t));
     let mut seen_t = BTreeSet::new();
     tys.retain(|t| seen_t.insert(t.clone()));
     let mut payloads: Vec<Payload> = vec![
